@@ -89,7 +89,7 @@ def run(corrupt=None):
     from phyclone.tree import FSCRPDistribution, TreeJointDistribution
 
     thorough = ck.tier == "thorough"
-    cfg = tlc.cfg_text(constants={"As": "<- AsDef", "Bs": "<- BsDef", "Alphas": "<- AlDef", "Ls": "<- LsDef", "MaxN": 6,
+    cfg = tlc.cfg_text(constants={"As": "<- AsDef", "Bs": "<- BsDef", "Alphas": "<- AlDef", "Ls": "<- LsDef", "MaxN": (9 if thorough else 6),
                                   "ShapeOffByOne": "FALSE", "Dump": "TRUE"}, invariants=["MixtureIdentity", "PiIsProbability", "Emit"])
     r = tlc.run_tlc("c13_conc", "MC_Conc", cfg, mc_text=MC, timeout=600)
     tlc.require_ok(r, "Concentration")
